@@ -160,17 +160,33 @@ theorem publish_mono_across_restart (now₁ now₂ : Int) (ref : Ref) (o : Optio
   have b := (publish_quantised now₂ ref o h₂ p hp).2.2
   omega
 
-/-- **symbolic start values yield a stream at least one minute old.**  For
-`epoch` the clock itself must be a minute past the epoch (no implementation that
-resolves `epoch` to 1970-01-01T00:00:00Z can do better, see `epoch_young`). -/
+/-- **the symbolic start values `today`, `month`, `year`, `now` yield a stream at
+least one minute old** – at every clock value, first seconds of a day, month or
+year and leap days included -/
 theorem symbolic_age (now : Int) (ref : Ref) (o : Options) (h0 : 0 ≤ now)
-    (hs : o.start.isSymbolic = true) (hep : o.start = .epoch → minuteUs ≤ now) :
+    (hs : o.start = .today ∨ o.start = .month ∨ o.start = .year ∨ o.start = .now) :
     minuteUs ≤ (T now ref o).elapsedTime := by
-  obtain ⟨a, _⟩ := resolve_symbolic h0 o.start hs hep
-  have hlt : resolved now o < now := by unfold resolved; unfold minuteUs at a; omega
+  have hsym : o.start.isSymbolic = true := by
+    rcases hs with hs | hs | hs | hs <;> rw [hs] <;> rfl
+  have hne : o.start = .epoch → minuteUs ≤ now := by
+    rcases hs with hs | hs | hs | hs <;> rw [hs] <;> intro x <;> cases x
+  exact symbolic_age_gen ref h0 hsym hne
+
+/-- **`epoch` yields a stream at least one minute old** once the clock itself is
+a minute past the epoch.  The side condition cannot be avoided by any
+implementation that resolves `epoch` to 1970-01-01T00:00:00Z (the stream is
+exactly as old as the clock reads); it restricts the clock domain and is listed
+under the assumptions of the check.  Excluded point: `epoch_young` below. -/
+theorem symbolic_age_epoch_partial (now : Int) (ref : Ref) (o : Options)
+    (hs : o.start = .epoch) (h : minuteUs ≤ now) :
+    minuteUs ≤ (T now ref o).elapsedTime ∧ (T now ref o).elapsedTime = now := by
+  have h0 : 0 ≤ now := by unfold minuteUs at h; omega
+  have hsym : o.start.isSymbolic = true := by rw [hs]; rfl
+  refine ⟨symbolic_age_gen ref h0 hsym (fun _ => h), ?_⟩
+  have hlt : resolved now o < now := by
+    unfold resolved; rw [hs]; simp only [resolveStart]; unfold minuteUs at h; omega
   rw [calc_elapsed, backOff_of_lt hlt]
-  unfold resolved
-  omega
+  unfold resolved; rw [hs]; simp only [resolveStart]; omega
 
 /-- **`epoch`, `today`, `month`, `year` resolve to one and the same instant for
 all requests within a UTC day after its first minute** -/
@@ -305,9 +321,11 @@ example : (calcWith false exNow exRef { start := .explicit (exNow - 700000) 0 })
 (and `elapsed // 0` raised ZeroDivisionError) -/
 example : defaultMup false ⟨10, 100⟩ = 0 := by decide
 
-/-- `symbolic_age` really needs its `epoch` hypothesis: 30 s after the epoch the
-`epoch` stream is 30 s old – unavoidable for any resolution of `epoch` to the
-Unix epoch, therefore a restriction of the clock domain, not a defect -/
+/-- non-vacuity of `symbolic_age_epoch_partial`: an ordinary clock is inside its hypothesis -/
+example : minuteUs ≤ exNow := by decide
+
+/-- `epoch_young`: the excluded point of `symbolic_age_epoch_partial` – 30 s after
+the epoch the `epoch` stream is 30 s old -/
 example : ¬ minuteUs ≤ (T 30000000 exRef { start := .epoch }).elapsedTime := by decide +kernel
 
 /-- `publish_mono` really needs the same-start hypothesis: `start=today`, `mup=7`
